@@ -5,7 +5,6 @@ package main
 import (
 	"fmt"
 	"go/types"
-	"sort"
 
 	"golang.org/x/tools/go/ssa"
 )
@@ -107,35 +106,87 @@ type Object struct {
 
 func (o *Object) String() string { return fmt.Sprintf("obj%d(%s)", o.ID, o.Name) }
 
-// Heap maps object id to its current content. Copy-on-write at the map level.
+// Heap maps object id to its current content: a persistent 32-ary trie, so that forking a state
+// is O(1), a store copies one path, and merging two heaps only visits the parts that differ.
+const heapLevels = 5 // ids < 32^5
+
+type hnode struct {
+	kids [32]*hnode
+	vals [32]Value
+	has  uint32
+}
+
 type Heap struct {
-	m      map[int]Value
-	shared bool
+	root *hnode
 }
 
-func NewHeap() *Heap { return &Heap{m: map[int]Value{}} }
+func NewHeap() *Heap { return &Heap{} }
 
-func (h *Heap) Clone() *Heap {
-	n := &Heap{m: make(map[int]Value, len(h.m)+8)}
-	for k, v := range h.m {
-		n.m[k] = v
+func (h *Heap) Clone() *Heap { return &Heap{root: h.root} }
+
+func (h *Heap) getID(id int) (Value, bool) {
+	n := h.root
+	for lvl := heapLevels - 1; lvl > 0; lvl-- {
+		if n == nil {
+			return nil, false
+		}
+		n = n.kids[(id>>(5*uint(lvl)))&31]
 	}
-	return n
-}
-
-func (h *Heap) Get(o *Object) (Value, bool) {
-	v, ok := h.m[o.ID]
-	return v, ok
-}
-func (h *Heap) Set(o *Object, v Value) { h.m[o.ID] = v }
-
-func (h *Heap) ids() []int {
-	var ids []int
-	for k := range h.m {
-		ids = append(ids, k)
+	if n == nil {
+		return nil, false
 	}
-	sort.Ints(ids)
-	return ids
+	s := id & 31
+	if n.has&(1<<uint(s)) == 0 {
+		return nil, false
+	}
+	return n.vals[s], true
+}
+
+func (h *Heap) Get(o *Object) (Value, bool) { return h.getID(o.ID) }
+
+func setRec(n *hnode, lvl int, id int, v Value) *hnode {
+	var c hnode
+	if n != nil {
+		c = *n
+	}
+	if lvl == 0 {
+		s := id & 31
+		c.vals[s] = v
+		c.has |= 1 << uint(s)
+		return &c
+	}
+	s := (id >> (5 * uint(lvl))) & 31
+	c.kids[s] = setRec(c.kids[s], lvl-1, id, v)
+	return &c
+}
+
+func (h *Heap) Set(o *Object, v Value) {
+	if o.ID >= 1<<(5*heapLevels) {
+		panic("object id overflow")
+	}
+	h.root = setRec(h.root, heapLevels-1, o.ID, v)
+}
+
+// each calls f for every (id, value)
+func (h *Heap) each(f func(id int, v Value)) {
+	var rec func(n *hnode, lvl int, base int)
+	rec = func(n *hnode, lvl int, base int) {
+		if n == nil {
+			return
+		}
+		if lvl == 0 {
+			for s := 0; s < 32; s++ {
+				if n.has&(1<<uint(s)) != 0 {
+					f(base|s, n.vals[s])
+				}
+			}
+			return
+		}
+		for s := 0; s < 32; s++ {
+			rec(n.kids[s], lvl-1, base|(s<<(5*uint(lvl))))
+		}
+	}
+	rec(h.root, heapLevels-1, 0)
 }
 
 func samePath(a, b []int) bool {
